@@ -223,13 +223,47 @@ def run_items(ctx, items, tag):
     r.sample({'formulas': [i[0] for i in items[:8]]})
 
 
+LISTS = ['K5:L7', 'K5:K7', 'K6:L6', 'INDEX(K5:L7,0,1)', 'INDEX(K5:L7,0,2)', 'INDEX(K5:L7,2,0)', 'INDEX(K5:L7,3,0)', 'L5:L7', 'K5:L5']
+AGGS = ['SUM', 'MAX', 'MIN', 'COUNT', 'AVERAGE']
+LIST_FORMS = ['{g}(IFERROR({l},{fb}))', '{g}(IFERROR({l},{fb}),{n})', 'IF(C1,{g}(IFERROR({l},{fb})),-5)', 'IFERROR({g}(IFERROR({l},{fb}))/C2,"div")',
+              '{g}(IFERROR({l},{fb}))+IFERROR(1/0,7)', 'IFS(C1,{g}(IFERROR({l},{fb})),C2,"second")', '{g}(IFERROR({l},{fb}),IFERROR(VLOOKUP(99,K1:L2,2,FALSE),{n}))',
+              'IFERROR({g}(IFERROR({l},{fb})),"outer")', '{g}(IF(C1,IFERROR({l},{fb}),{n}))', 'IFERROR({g}({l}),{fb})']
+LIST_CELLS = ['K5', 'L5', 'K6', 'L6', 'K7', 'L7']
+
+
+def run_lists(ctx):
+    """IFERROR whose first argument is a whole area or a row/column taken by INDEX, consumed by an aggregate: the value of the
+    first argument is a list and, holding no error value, it is what IFERROR hands on."""
+    from ..refcheck import judge_book
+    r, rng = ctx.r, ctx.rng
+    nb = 3 if ctx.tier == 'quick' else 24
+    for b in range(nb):
+        cells = dict(BASE)
+        cells.update({'C1': 1, 'C2': 1})
+        for i, c in enumerate(LIST_CELLS):
+            cells[c] = (i + 1) * 3 + b
+        targets = []
+        for i in range(60):
+            f = rng.choice(LIST_FORMS).format(g=rng.choice(AGGS), l=rng.choice(LISTS), fb=rng.choice(['0', '-1', '"fb"', 'N1']), n=rng.choice(['1', '4', 'N2']))
+            cells[f'P{i + 1}'] = '=' + f
+            targets.append((0, f'P{i + 1}'))
+            r.count('context:list-in-aggregate')
+        vals = [[]]
+        for _ in range(5 if ctx.tier == 'quick' else 10):
+            v = [(0, c, rng.choice([0, 1, 2.5, -4, 17, 100, None, None, 'x', '', '#N/A' if rng.random() < 0.15 else 8])) for c in LIST_CELLS if rng.random() < 0.8]
+            v += [(0, 'C1', rng.choice([0, 1, True, False])), (0, 'C2', rng.choice([0, 1, 2]))]
+            vals.append(v)
+        judge_book(ctx, ID, wbspec.spec(wbspec.sheet('S', cells)), targets, vals, exact=False, name=f'l{b}', monitor='branch-reference',
+                   strict_text=True, nontrivial=lambda case, outs: True)
+
+
 def classify(f, out, outs):
     return None
 
 
 def plan(tier, seed):
     n = 16
-    return [{'part': p, 'parts': n} for p in range(n)]
+    return [{'part': p, 'parts': n} for p in range(n)] + [{'lists': i} for i in range(2 if tier == 'quick' else 8)]
 
 
 def run_shard(shard, ctx):
@@ -238,6 +272,8 @@ def run_shard(shard, ctx):
         c = shard['replay']
         from ..refcheck import replay_case
         return replay_case(ctx, ID, c, exact=False, strict_text=True)
+    if 'lists' in shard:
+        return run_lists(ctx)
     items = build_items(random.Random(ctx.seed), ctx.tier)
     mine = [it for i, it in enumerate(items) if i % shard['parts'] == shard['part']]
     run_items(ctx, mine, 'n')
